@@ -47,6 +47,9 @@ static _Atomic(hazard_pointer_thread_record_t*) fiber_hazard_head = NULL;
 
 void fiber_destroy(fiber_t* f) {
   if (f) {
+#ifdef LIBFIBER_VERIF
+    verif_fiber_destroy(f);
+#endif
     assert(f->state == FIBER_STATE_DONE);
     fiber_context_destroy(&f->context);
     free(f->mpsc_fifo_node);
@@ -91,6 +94,9 @@ static inline void fiber_manager_switch_to(fiber_manager_t* manager,
   manager->current_fiber = new_fiber;
   manager->old_fiber = old_fiber;
   new_fiber->state = FIBER_STATE_RUNNING;
+#ifdef LIBFIBER_VERIF
+  verif_switch(manager, old_fiber, new_fiber);
+#endif
   fiber_context_swap(&old_fiber->context, &new_fiber->context);
 
   fiber_manager_do_maintenance();
@@ -313,6 +319,9 @@ extern int fiber_mutex_unlock_internal(fiber_mutex_t* mutex);
 
 void fiber_manager_do_maintenance() {
   fiber_manager_t* const manager = fiber_manager_get();
+#ifdef LIBFIBER_VERIF
+  verif_switched(manager);
+#endif
 
   fiber_t* const old_fiber = manager->old_fiber;
   if (old_fiber->state == FIBER_STATE_SAVING_STATE_TO_WAIT) {
